@@ -67,7 +67,11 @@ def relation_violation(s, w):
     if k is None:
         # warn mode raised too (unknown command code / no union member) or crashed before warning
         if wo.startswith("raised") and w[-1].split(" rem=")[0][len("R raised "):] == err and we == se:
-            return None
+            # the only problems warn mode cannot continue after: a command code without layouts, a selector without union member
+            ty = next((f[5:] for f in err.split(" ") if f.startswith("type=")), "")
+            if err.startswith("ValueConstraintViolatedError") and (ty == "TPM_CC" or ty.startswith("TPMU_")):
+                return None
+            return f"warn mode raises {err[:80]} itself instead of emitting it as a warning and continuing"
         if wo.startswith("crash") and we[:len(se)] == se[:len(we)]:
             return "known-crash"
         return f"strict raises {err[:60]}, warn mode emits no warning ({w[-1][:60]})"
